@@ -145,6 +145,8 @@ def cp_als(  # noqa: PLR0912,PLR0913,PLR0915
         optdims = np.arange(N)
     else:
         optdims = parse_one_d(optdims)
+    if len(optdims) == 0 or not set(optdims.tolist()) <= set(range(N)):
+        assert False, "Optdims must be a non-empty subset of range(tensor.ndims)"
 
     # Error checking
     assert rank > 0, "Number of components requested must be positive"
